@@ -95,7 +95,9 @@ func verif_Release(pm *Manager, port int, q int) {
 }
 
 // NewManager establishes the monitor invariant: nothing used or reserved, and
-// every free port lies within 1..65535.
+// every free port lies within 1..65535; with a non-empty allowPorts list every
+// free port is named by one of its entries (C09 "lies inside the operator's
+// allowPorts set": the free set is what Acquire hands out from).
 //
 //verif:contract ~/server/ports.NewManager
 //verif:props C09
@@ -105,12 +107,32 @@ func verif_NewManager(netType string, bindAddr string, allowPorts []types.PortsR
 	verif.Ensures(pm.verifInvPorts(q), "establishes_inv_ports")
 	verif.Ensures(pm.verifInvReserved(n), "establishes_inv_reserved")
 	verif.Ensures(!verif.Has(pm.usedPorts, q), "nothing_used")
+	if len(allowPorts) > 0 && verif.Has(pm.freePorts, q) {
+		verif.Ensures(verifAllowed(allowPorts, q), "only_allowed_ports_are_free")
+	}
 }
 
-//verif:loop ~/server/ports.NewManager 1 inv=verifLoopNewManager args=pm
-//verif:loop ~/server/ports.NewManager 2 inv=verifLoopNewManager args=pm
-//verif:loop ~/server/ports.NewManager 3 inv=verifLoopNewManager args=pm
-func verifLoopNewManager(pm *Manager, q int) bool {
+//verif:loop ~/server/ports.NewManager 1 inv=verifLoopNewManager args=pm,allowPorts
+//verif:loop ~/server/ports.NewManager 2 inv=verifLoopNewManager args=pm,allowPorts
+//verif:loop ~/server/ports.NewManager 3 inv=verifLoopNewManagerAll args=pm
+func verifLoopNewManager(pm *Manager, allowPorts []types.PortsRange, q int) bool {
+	_, free := pm.freePorts[q]
+	return !free || (q >= MinPort && q <= MaxPort && verifAllowed(allowPorts, q))
+}
+
+func verifLoopNewManagerAll(pm *Manager, q int) bool {
 	_, free := pm.freePorts[q]
 	return !free || (q >= MinPort && q <= MaxPort)
+}
+
+// verifAllowed: q is named by some entry of the operator's allowPorts list - a
+// single port, or a start-end range when no single port is given.
+func verifAllowed(allowPorts []types.PortsRange, q int) bool {
+	return verif.Exists(0, len(allowPorts), func(k int) bool {
+		p := allowPorts[k]
+		if p.Single > 0 {
+			return q == p.Single
+		}
+		return p.Start <= q && q <= p.End
+	})
 }
